@@ -17,9 +17,11 @@ from ..core import Violation, call
 KINDS = [('sdo', 8), ('sco', 2), ('marking', 1), ('custom', 2)]
 SCALAR_STR = ['type', 'id', 'name', 'description', 'created_by_ref', 'relationship_type', 'source_ref', 'target_ref']
 TS = ['created', 'modified']
-INT = ['confidence']
+INT = ['confidence', 'x_info.level']
+# paths through a list of objects (external_references.*), through a nested object to a scalar (x_info.level) and through nested
+# objects to a LIST leaf (x_info.tags, x_info.inner.codes)
 LISTY = ['labels', 'object_marking_refs', 'external_references.source_name', 'external_references.external_id',
-         'granular_markings.selectors', 'granular_markings.marking_ref']
+         'granular_markings.selectors', 'granular_markings.marking_ref', 'x_info.tags', 'x_info.inner.codes']
 ALL_PROPS = SCALAR_STR + TS + INT + LISTY
 
 
@@ -138,6 +140,8 @@ class C12(Profile):
                 e['versions'] = sorted({tsparse.trunc_ms(m) + 1000 * i for i, m in enumerate(e['versions'])})
             if e['kind'] == 'sdo' and rng.random() < 0.3:
                 e['granular'] = True
+            if e['kind'] in ('sdo', 'custom', 'unreg') and rng.random() < 0.4:
+                e['xinfo'] = rng.randrange(1000)
             if e['kind'] in ('sdo', 'custom') and rng.random() < 0.3 and any(x['kind'] == 'sdo' for x in pool):
                 pass
         ops = []
@@ -458,6 +462,11 @@ class C12(Profile):
 def content12(pool, k, j):
     d = SW.content(pool, k, j)
     e = pool[k % len(pool)]
+    if e.get('xinfo') is not None:
+        n = e['xinfo'] + j
+        tags = ['gold', 'silver', 'bronze', 'tin', 'lead']
+        d['x_info'] = {'level': n % 7, 'tags': [tags[n % 5], tags[(n // 5 + 1 + n) % 5]][:1 + n % 2],
+                       'inner': {'codes': ['c%d' % (n % 4), 'k%d' % (n % 3)], 'note': 'n'}}
     if e.get('granular') and 'labels' in d:
         d['granular_markings'] = [{'marking_ref': C.TLP['amber'], 'selectors': ['labels']},
                                   {'marking_ref': C.STATEMENT_MARKINGS[0], 'selectors': ['type', 'labels.[0]']}]
